@@ -34,7 +34,11 @@ func backpressureCases(tier string, seed int64) []Case {
 		if (i/8)%2 == 0 {
 			cfg.ClientNoFC, cfg.ServerNoFC = true, true
 		}
-		out = append(out, Case{Family: "backpressure", Seed: rng.Int63(), Cfg: cfg, P: map[string]int{"how": (i / 16) % 3}})
+		how := (i / 16) % 3
+		if cfg.ClientNoFC && (i/2)%2 == 1 {
+			how = 3 // many RPCs refused after a graceful shutdown, while the responses back up
+		}
+		out = append(out, Case{Family: "backpressure", Seed: rng.Int63(), Cfg: cfg, P: map[string]int{"how": how}})
 	}
 	return out
 }
@@ -77,6 +81,54 @@ func famBackpressure(w *World, c *Case, rng *rand.Rand) {
 			w.Violate("C15", "deadlock:"+r.Side+":"+r.K, "backpressure %s (%s): %s; %s %s[%d] of rpc %s has not returned and nothing has happened for 150 polls", w.SigExtra, w.Cfg, what, r.Side, r.K, r.Idx, r.RPC)
 		}
 		w.Violate("C15", "scenario-stuck", "backpressure %s (%s): %s: no progress", w.SigExtra, w.Cfg, what)
+		if how == 3 {
+			w.Violate("C10", "refusals-stall-the-tunnel", "backpressure %s (%s): after graceful shutdown the calls started afterwards are neither refused nor even read, and the call in flight cannot finish: %s", w.SigExtra, w.Cfg, what)
+		}
+	}
+	if how == 3 {
+		// graceful shutdown with the flood in flight, then a burst of new calls (each only opens and
+		// sends: no reply is needed for that) before the application starts reading. Only liveness is
+		// judged here: every refusal costs the serving side a frame on the stalled direction, and its
+		// receive loop must nevertheless go on consuming what the caller writes.
+		w.Env.StartRPC(context.Background(), w.Ch, r1)
+		if !w.awaitFree(w.Env.syncChan("flooding")) {
+			stuck("start")
+			w.Env.Signal("go")
+			w.Finish()
+			return
+		}
+		time.Sleep(10 * time.Millisecond)
+		if w.Cfg.Dir == "forward" {
+			w.Handler.InitiateShutdown()
+		} else {
+			go w.RevSrvs[0].GracefulStop()
+			time.Sleep(5 * time.Millisecond)
+		}
+		var burst []*RPCSpec
+		for i := 0; i < 25; i++ {
+			b := &RPCSpec{ID: fmt.Sprintf("late%d", i), Method: "Bidi", Client: []Op{{K: "open"}, {K: "send", N: 1200}, {K: "signal", Name: fmt.Sprintf("sent%d", i)}, {K: "sync", Name: "go"}, {K: "close"}, {K: "recvall"}},
+				Handler: []Op{{K: "recvall"}, {K: "send", N: 5}, {K: "ret"}}}
+			burst = append(burst, b)
+			w.Env.StartRPC(context.Background(), w.Ch, b)
+			if !w.awaitFree(w.Env.syncChan(fmt.Sprintf("sent%d", i))) {
+				stuck(fmt.Sprintf("call %d started after the shutdown could not even send its request", i))
+				w.Env.Signal("go")
+				w.Stat("backpressure_runs", 1)
+				w.Finish()
+				return
+			}
+		}
+		w.Env.Signal("go")
+		for _, s := range append(burst, r1) {
+			if !w.awaitFree(s.done) {
+				stuck("waiting for rpc " + s.ID)
+				break
+			}
+		}
+		w.Stat("backpressure_runs", 1)
+		w.Stat("backpressure_refusal_bursts", 1)
+		w.Finish()
+		return
 	}
 	w.Env.StartRPC(context.Background(), w.Ch, r1)
 	w.Env.StartRPC(context.Background(), w.Ch, r2)
